@@ -207,7 +207,7 @@ def parse_rvalue(s):
                 if depth == 0: break
         name = s[:i]; inner = s[i + 1:-1]
         return ('ctor', name, [parse_operand(x) for x in split_top(inner)])
-    if re.fullmatch(r'[\w:<>, &\'\[\]();]+', s):
+    if re.fullmatch(r'[\w:<>, &\'\[\]();=]+', s) and ('=' not in s or ('<' in s and s.index('<') < s.index('='))):
         return ('unit', s)            # unit variant or unit struct
     return ('unsupported', s)
 
